@@ -1183,6 +1183,25 @@ Section Wp.
     - subst a. reflexivity.
   Qed.
 
+
+  (* ---------------------------------------------------------------- adaptive clients *)
+
+  Theorem wp_client narrow widen fuel o : (length data < fuel)%nat ->
+    forall (A : Type) (c : client A) t d, Suffix d -> client_seeks_ok narrow widen data o c d = true ->
+    wp (mps_client narrow widen fuel o c t) (st d) (fun a _ => a = str_client narrow widen data o c t d).
+  Proof.
+    intros Hf A. induction c as [a|op k IH]; intros t d HS Hok; [reflexivity|].
+    cbn [client_seeks_ok] in Hok. apply andb_true_iff in Hok. destruct Hok as [Hok1 Hok2].
+    cbn [mps_client str_client]. apply wp_pbind.
+    pose proof (suffix_len d HS) as Hl.
+    eapply wp_mono; [|apply wp_op; [exact HS | lia | exact Hok1]].
+    intros a m' Ha. destruct (str_op narrow widen data o op d) as [v r|r|e|]; cbn [post] in Ha.
+    - destruct Ha as [-> [-> HSr]]. apply wp_get_pos. cbv zeta. apply IH; assumption.
+    - destruct Ha as [-> [-> HSr]]. apply wp_get_pos. cbv zeta. apply IH; assumption.
+    - subst a. reflexivity.
+    - subst a. reflexivity.
+  Qed.
+
   (* ---------------------------------------------------------------- from the reference to any reader it simulates *)
 
   Section AnyReader.
@@ -1694,3 +1713,178 @@ Example straddle_truncated :
   str_run no_narrow id_widen (firstn 13 straddle_doc) skip_all [RdStr; RdStr; RdNil] =
     [AOkAt (VBytes [0x61; 0x62; 0x63]) 4; AErrOf EParse].
 Proof. vm_compute. split; reflexivity. Qed.
+
+(* ---- adaptive clients ---- *)
+
+Theorem client_any_reader (S : Type) (step : S -> bop -> outcome (bres * S)) (R : S -> mem -> Prop)
+  K data narrow widen fuel o (A : Type) (c : client A) :
+  (8 <= K)%nat -> fits_streamoff data -> bytes_ok data -> (length data < fuel)%nat ->
+  client_seeks_ok narrow widen data o c data = true ->
+  (forall s m op, R s m -> op_sizet op ->
+     exists r s' m', step s op = Ok (r, s') /\ mem_step K data m op r = Some m' /\ R s' m') ->
+  forall s0, R s0 mem_start ->
+  exists s', interp step (mps_client narrow widen fuel o c []) s0 = Ok (str_client_run narrow widen data o c, s').
+Proof.
+  intros HK Hl Hb Hf Hok Hsim s0 HR.
+  pose proof (wp_client K data HK Hl Hb narrow widen fuel o Hf A c [] data (suffix_data data) Hok) as H.
+  rewrite st_data in H.
+  destruct (interp_wp K data step R Hsim _ s0 mem_start _ HR H) as [a [s' [m' [E [-> _]]]]].
+  exists s'. exact E.
+Qed.
+
+(* C10, adaptive form: any deterministic client of the reader interface gets from CMsgPackStreamReader over
+   the chunked reader (chunk size K, seekable stream holding data) the transcript and the result it gets
+   from CMsgPackStringReader over data *)
+Theorem client_on_chunked_stream K data narrow widen fuel o (A : Type) (c : client A) :
+  (8 <= K)%nat -> fits_streamoff data -> bytes_ok data -> (length data < fuel)%nat ->
+  client_seeks_ok narrow widen data o c data = true ->
+  mps_client_bsr narrow widen K (stream_of data true) fuel o c = Ok (str_client_run narrow widen data o c).
+Proof.
+  intros HK Hl Hb Hf Hok. unfold mps_client_bsr.
+  assert (HK0 : (0 < K)%nat) by lia.
+  destruct (new_rel K HK0 data Hl true) as [HR Hs].
+  destruct (client_any_reader bsr (bsr_step K) (BsrRel K data) K data narrow widen fuel o A c HK Hl Hb Hf Hok
+              (bsr_sim K data HK0 Hl) (bsr_new K (stream_of data true))) as [s' E].
+  - split; assumption.
+  - rewrite E. reflexivity.
+Qed.
+
+Theorem client_on_memory K data narrow widen fuel o (A : Type) (c : client A) :
+  (8 <= K)%nat -> fits_streamoff data -> bytes_ok data -> (length data < fuel)%nat ->
+  client_seeks_ok narrow widen data o c data = true ->
+  mps_client_mem narrow widen K data fuel o c = Ok (str_client_run narrow widen data o c).
+Proof.
+  intros HK Hl Hb Hf Hok. unfold mps_client_mem.
+  destruct (client_any_reader mem (memr_step K data) (MemRel data) K data narrow widen fuel o A c HK Hl Hb Hf Hok
+              (memr_sim K data HK Hl) mem_start) as [s' E].
+  - intros _. split; [reflexivity|]. cbn. lia.
+  - rewrite E. reflexivity.
+Qed.
+
+(* strategies: the positions a run of the string reader shows never leave the data, so a strategy that
+   seeks only to 0 or to positions it was shown (or otherwise inside the data) meets client_seeks_ok *)
+Definition seeks_inside (data : list N) (sigma : strategy) : Prop :=
+  forall t p, sigma t = Some (RdSetPos p) -> p = 0 \/ In p (positions t) \/ p <= N.of_nat (length data).
+
+Lemma positions_app t1 t2 : positions (t1 ++ t2) = positions t1 ++ positions t2.
+Proof.
+  induction t1 as [|[op a] t1 IH]; [reflexivity|]. cbn [app positions]. destruct a; cbn [app]; rewrite ?IH; reflexivity.
+Qed.
+
+Lemma strategy_seeks_ok narrow widen data o sigma : seeks_inside data sigma ->
+  forall n t d, Forall (fun p => p <= N.of_nat (length data)) (positions t) ->
+  client_seeks_ok narrow widen data o (client_of n sigma t) d = true.
+Proof.
+  intros Hs. induction n as [|n IH]; intros t d Ht; [reflexivity|].
+  cbn [client_of]. destruct (sigma t) as [op|] eqn:Es; [|reflexivity].
+  cbn [client_seeks_ok]. apply andb_true_iff. split.
+  - destruct op; try reflexivity. cbn [rop_ok]. apply N.leb_le.
+    destruct (Hs t p Es) as [->|[Hin|Hle]]; [lia | | exact Hle].
+    rewrite Forall_forall in Ht. apply Ht. exact Hin.
+  - assert (Step : forall a, (match a with AOkAt _ p | ANotAt p => p <= N.of_nat (length data) | _ => True end) ->
+                     Forall (fun p => p <= N.of_nat (length data)) (positions (t ++ [(op, a)]))).
+    { intros a Ha. rewrite positions_app. apply Forall_app. split; [exact Ht|].
+      destruct a; cbn [positions]; try constructor; try exact Ha; constructor. }
+    destruct (str_op narrow widen data o op d) as [v r|r|e|]; try reflexivity; apply IH; apply Step; lia.
+Qed.
+
+Theorem strategy_on_chunked_stream K data narrow widen fuel o n sigma :
+  (8 <= K)%nat -> fits_streamoff data -> bytes_ok data -> (length data < fuel)%nat ->
+  seeks_inside data sigma ->
+  mps_client_bsr narrow widen K (stream_of data true) fuel o (client_of n sigma []) =
+    Ok (str_client_run narrow widen data o (client_of n sigma [])).
+Proof.
+  intros HK Hl Hb Hf Hs. apply client_on_chunked_stream; try assumption.
+  apply strategy_seeks_ok; [exact Hs | constructor].
+Qed.
+
+Lemma seeks_known_inside data sigma : seeks_known sigma -> seeks_inside data sigma.
+Proof. intros H t p E. destruct (H t p E) as [H0|H1]; [left; exact H0 | right; left; exact H1]. Qed.
+
+(* the transcript of a strategy's client is the strategy's own bookkeeping: the run returns what it was fed *)
+Lemma str_client_of_transcript narrow widen data o sigma : forall n t d,
+  exists t', fst (str_client narrow widen data o (client_of n sigma t) t d) = t ++ t'.
+Proof.
+  induction n as [|n IH]; intros t d; cbn [client_of].
+  - exists []. cbn. rewrite app_nil_r. reflexivity.
+  - destruct (sigma t) as [op|]; [|exists []; cbn; rewrite app_nil_r; reflexivity].
+    cbn [str_client]. destruct (str_op narrow widen data o op d) as [v r|r|e|]; cbv zeta.
+    + destruct (IH (t ++ [(op, AOkAt v (N.of_nat (length data - length r)))]) r) as [t' E].
+      rewrite E. eexists. rewrite <- app_assoc. reflexivity.
+    + destruct (IH (t ++ [(op, ANotAt (N.of_nat (length data - length r)))]) r) as [t' E].
+      rewrite E. eexists. rewrite <- app_assoc. reflexivity.
+    + eexists. reflexivity.
+    + eexists. reflexivity.
+Qed.
+
+(* ---- FindValueByKey in miniature meets the precondition on every document ---- *)
+
+Lemma find_members_seeks_ok narrow widen data o key start : start <= N.of_nat (length data) ->
+  forall n d, client_seeks_ok narrow widen data o (find_members n key start) d = true.
+Proof.
+  intros Hst. assert (Hseek : rop_ok data (RdSetPos start) = true) by (apply N.leb_le; exact Hst).
+  induction n as [|n IH]; intros d; cbn [find_members client_seeks_ok].
+  - rewrite Hseek. cbn [andb]. destruct (str_op narrow widen data o (RdSetPos start) d); reflexivity.
+  - cbn [rop_ok andb].
+    assert (Tail : forall (a : ans) d', client_seeks_ok narrow widen data o
+              (match a with
+               | AOkAt (VBytes s) _ =>
+                 if list_eqb s key then
+                   CCall (RdInt s32) (fun a2 =>
+                     match a2 with
+                     | AOkAt (VInt z) _ => CCall (RdSetPos start) (fun _ => CRet (Some z))
+                     | _ => CCall (RdSetPos start) (fun _ => CRet None)
+                     end)
+                 else CCall RdSkip (fun _ => find_members n key start)
+               | _ => CRet None
+               end) d' = true).
+    { intros a d'. destruct a as [v p|p|e|]; try reflexivity. destruct v; try reflexivity.
+      destruct (list_eqb l key).
+      - cbn [client_seeks_ok rop_ok andb].
+        assert (Fin : forall (r : option Z) d'', client_seeks_ok narrow widen data o (CCall (RdSetPos start) (fun _ => CRet r)) d'' = true).
+        { intros r d''. cbn [client_seeks_ok]. rewrite Hseek. cbn [andb].
+          destruct (str_op narrow widen data o (RdSetPos start) d''); reflexivity. }
+        destruct (str_op narrow widen data o (RdInt s32) d') as [v r|r|e|]; try reflexivity.
+        + destruct v; cbv beta iota;
+            match goal with |- client_seeks_ok _ _ _ _ (CCall _ (fun _ => CRet ?x)) _ = true => apply (Fin x) end.
+        + cbv beta iota. apply (Fin None).
+      - cbn [client_seeks_ok rop_ok andb].
+        destruct (str_op narrow widen data o RdSkip d') as [v r|r|e|]; try reflexivity; apply IH. }
+    destruct (str_op narrow widen data o RdStr d) as [v r|r|e|]; try reflexivity.
+    exact (Tail (AOkAt v (N.of_nat (length data - length r))) r).
+Qed.
+
+Lemma find_by_key_seeks_ok narrow widen data o bound key :
+  client_seeks_ok narrow widen data o (find_by_key bound key) data = true.
+Proof.
+  unfold find_by_key. cbn [client_seeks_ok rop_ok andb].
+  destruct (str_op narrow widen data o RdMap data) as [v r|r|e|]; try reflexivity.
+  destruct v; try reflexivity. apply find_members_seeks_ok. lia.
+Qed.
+
+Theorem find_by_key_stream_equals_memory K data narrow widen fuel o bound key :
+  (8 <= K)%nat -> fits_streamoff data -> bytes_ok data -> (length data < fuel)%nat ->
+  mps_client_bsr narrow widen K (stream_of data true) fuel o (find_by_key bound key) =
+    Ok (str_client_run narrow widen data o (find_by_key bound key)).
+Proof.
+  intros HK Hl Hb Hf. apply client_on_chunked_stream; try assumption. apply find_by_key_seeks_ok.
+Qed.
+
+(* {"a": 1, "bcdefghij": [1, nil], "k": -70000, "z": 0}: the wanted key is the third member; the int32 value
+   straddles the chunk boundary at 24 (K = 8), the final seek goes back to offset 1 in the first chunk *)
+Definition find_doc : list N :=
+  [0x84; 0xA1; 0x61; 0x01;  0xA9; 0x62; 0x63; 0x64; 0x65; 0x66; 0x67; 0x68; 0x69; 0x6A; 0x92; 0x01; 0xC0;
+   0xA1; 0x6B; 0xD2; 0xFF; 0xFE; 0xEE; 0x90;  0xA1; 0x7A; 0x00].
+
+Example find_by_key_run :
+  str_client_run no_narrow id_widen find_doc throw_all (find_by_key 27 [0x6B]) =
+    ([(RdMap, AOkAt (VNum 4) 1); (RdStr, AOkAt (VBytes [0x61]) 3); (RdSkip, AOkAt VUnit 4);
+      (RdStr, AOkAt (VBytes [0x62; 0x63; 0x64; 0x65; 0x66; 0x67; 0x68; 0x69; 0x6A]) 14); (RdSkip, AOkAt VUnit 17);
+      (RdStr, AOkAt (VBytes [0x6B]) 19); (RdInt s32, AOkAt (VInt (-70000)) 24); (RdSetPos 1, AOkAt VUnit 1)],
+     Some (Some (-70000)%Z)) /\
+  mps_client_bsr no_narrow id_widen 8 (stream_of find_doc true) 28 throw_all (find_by_key 27 [0x6B]) =
+    Ok (str_client_run no_narrow id_widen find_doc throw_all (find_by_key 27 [0x6B])) /\
+  mps_client_mem no_narrow id_widen 8 find_doc 28 throw_all (find_by_key 27 [0x6B]) =
+    Ok (str_client_run no_narrow id_widen find_doc throw_all (find_by_key 27 [0x6B])) /\
+  snd (str_client_run no_narrow id_widen find_doc throw_all (find_by_key 27 [0x71])) = Some None.
+Proof. vm_compute. repeat split; reflexivity. Qed.
